@@ -21,7 +21,17 @@ PROFILES = ["a", "b", "c"]
 CONDITIONS = ["a", "b", "a and b", "a or c", "cds(a and b)", "a and not c", "minimum(2, [a, b, c])", "c and (a or b)",
               "cds(a or b) and c"]
 
-REGION_OVERLAP_CLASS = "rotation_origin_spanning_region_sections"
+# regression corpus of the rotation run, used first: (length, genes, rules, hits, rotation).  Witness of the repaired
+# finding C07-K1 rotation_origin_spanning_region_sections (after the rotation the region g1-g4 spans the origin and two
+# sections of create_regions' sweep overlap it; the unrepaired code merged only the last one and raised ValueError)
+ROTATION_CORPUS = [
+    (176448,
+     [("g0", 0, 90, 1), ("g1", 15090, 15390, 1), ("g2", 15391, 15481, 1), ("g3", 20482, 20572, -1), ("g4", 20622, 21522, 1),
+      ("g5", 36522, 36612, -1)],
+     ["RULE r0 CATEGORY c CUTOFF 5 NEIGHBOURHOOD 3 CONDITIONS a or c", "RULE r1 CATEGORY c CUTOFF 5 NEIGHBOURHOOD 0 CONDITIONS b"],
+     {"g0": {"a"}, "g2": {"a", "b"}, "g3": {"b"}, "g4": {"a", "c"}, "g5": {"a"}},
+     155876),
+]
 
 
 # ------------------------------------------------------------------ generators
@@ -293,7 +303,6 @@ def run(chk):
         return chk.finish(RULE)
     rng = chk.rng
     quick = chk.tier == "quick"
-    known_classes = {f["class"] for f in common.load_known_findings("C07") if f["status"] == "known"}
 
     # ---- (A) rule order, sub-selection and the sanctioned removal of covered clusters
     solo_cases, solo_meta = [], []
@@ -339,8 +348,14 @@ def run(chk):
 
     # ---- (B) rotation (and the rule order of these records)
     cases, impl_outs, meta = [], [], []
+    corpus = list(ROTATION_CORPUS)
     for _ in range(450 if quick else 7000):
-        length, genes, rules, hits = gen_record(rng)
+        forced = None
+        if corpus:
+            length, genes, rules, hits, forced = corpus.pop(0)
+            chk.count("rotation_corpus_records")
+        else:
+            length, genes, rules, hits = gen_record(rng)
         try:
             base, base_domains, members, cands, regions = run_pipeline(length, genes, rules, hits, areas=True)
         except Exception as exc:  # pylint: disable=broad-except
@@ -368,6 +383,8 @@ def run(chk):
             chk.count("records_with_superiors_not_rotated")
             ks = []
         rng.shuffle(ks)
+        if forced is not None:
+            ks = [forced] + [k for k in ks if k != forced]
         for k in ks[:6]:
             rotated = rotate_genes(genes, length, k)
             try:
@@ -401,11 +418,7 @@ def run(chk):
             chk.count("model_rotation_error")
             continue
         if got[0] == "error":
-            spanning = any(len(region[1]) > 1 for region in expected[3])
-            if (got[1:] == ("ValueError", "regions cannot overlap") and spanning and REGION_OVERLAP_CLASS in known_classes):
-                chk.count("known_class_" + REGION_OVERLAP_CLASS)
-                continue
-            have = got
+            have = got          # no class of failing rotations is recorded (C07-K1 is repaired): a violation below
         else:
             have = tuple(sorted(x) for x in got)
         if tuple(expected) != have:
@@ -413,6 +426,8 @@ def run(chk):
             if mismatches <= 3:
                 level = next((name for name, w, h in zip(("protoclusters", "protocluster members", "candidate clusters",
                                                            "regions"), expected, have) if w != h), "run")
+                if got[0] == "error":
+                    level = f"the run on the rotated record raised {got[1]}: {got[2]}; results"
                 chk.violation("counterexample", f"detection is not invariant under rotation of the origin ({level} differ)",
                               {"theorem_or_correspondence": "C07_rotation_pipeline / detect_protoclusters_and_signatures, "
                                                             "create_candidate_clusters, create_regions",
@@ -443,18 +458,6 @@ def known_findings(chk):
                 continue
             if len(got) != len(base):
                 chk.known(finding["what_fails"])
-        elif finding["class"] == REGION_OVERLAP_CLASS:
-            try:
-                run_pipeline(w["length"], genes, w["rules"], hits, areas=True)
-            except Exception:  # pylint: disable=broad-except
-                continue
-            try:
-                run_pipeline(w["length"], rotated, w["rules"], hits, areas=True)
-            except ValueError as exc:
-                if "regions cannot overlap" in str(exc):
-                    chk.known(finding["what_fails"])
-            except Exception:  # pylint: disable=broad-except
-                continue
 
 
 def decode_expected(model, info):
